@@ -1230,7 +1230,10 @@ def rule_B5(prog):
             if not ok:
                 r.find(fn.path, "finish-order", "Replace::finish must call flush_eq, then flush_del_ins, then the "
                        "inner finish (found %d/%d/%d calls, order by dominance violated or a call missing)" % (
-                           len(a), len(b), len(f)), file=fn.file, line=fn.line)
+                           len(a), len(b), len(f)), file=fn.file, line=fn.line,
+                       # the steps sit in closures of an `and_then` chain: the sequencing is not visible to this rule (B3
+                       # still checks the hook trace of Replace::finish): undecided, not a violation
+                       undecided=bool(len(a) + len(b) + len(f) < 3 and prog.closures_of.get(fn.path)))
         # flush helpers: flush_eq emits only `equal`, flush_del_ins emits replace|delete|insert and clears buffers
         for hn, allowed, fields in ((FLUSH_EQ, {"equal"}, [F_EQ]), (FLUSH_DI, {"delete", "insert", "replace"}, [F_DEL, F_INS])):
             fns = [f_ for f_ in prog.find("Replace::" + hn)]
@@ -1248,7 +1251,8 @@ def rule_B5(prog):
                 r.ob(ok, "Replace::%s emits %s, takes %s" % (hn, sorted(ms), takes))
                 if not ok:
                     r.find(f_.path, "flush-body", "Replace::%s must emit only %s and clear %s with take(); emits %s, "
-                           "takes %s" % (hn, sorted(allowed), fields, sorted(ms), takes), file=f_.file, line=f_.line)
+                           "takes %s" % (hn, sorted(allowed), fields, sorted(ms), takes), file=f_.file, line=f_.line,
+                           undecided=bool(not ms and prog.closures_of.get(f_.path)))     # the emission sits in a closure (`map_or`)
     if comp is None:
         r.find("algorithms::compact::Compact", "no-impl", "DiffHook impl for Compact not found")
     else:
